@@ -274,6 +274,47 @@ func depthOfFile(doc *vlib.Doc, r vlib.Rendered, file string) int {
 }
 
 // offenderSpans: where a diagnostic for the fault may point (see C11).
+// pastedBodySpans: the bodies of the macros an offending directive pastes
+// (transitively) are, after expansion, part of that directive: a diagnostic
+// about a pasted child of the offender is reported there.
+func pastedBodySpans(flat *vlib.Doc, r vlib.Rendered, offenders []int) []vlib.Span {
+	offSet := map[int]bool{}
+	for _, o := range offenders {
+		offSet[o] = true
+	}
+	macros := map[string]*vlib.Dir{}
+	flat.Walk(func(d, _ *vlib.Dir) {
+		if d.Kw == "MACRO" && len(d.Params) > 0 {
+			macros[d.Params[0]] = d
+		}
+	})
+	seen := map[string]bool{}
+	var visit func(d *vlib.Dir)
+	visit = func(d *vlib.Dir) {
+		if d.Kw == "PASTE" && len(d.Params) > 0 && !seen[d.Params[0]] {
+			seen[d.Params[0]] = true
+			if m := macros[d.Params[0]]; m != nil {
+				visit(m)
+			}
+		}
+		for _, c := range d.Children {
+			visit(c)
+		}
+	}
+	flat.Walk(func(d, _ *vlib.Dir) {
+		if offSet[d.ID] {
+			visit(d)
+		}
+	})
+	var spans []vlib.Span
+	for name := range seen {
+		if m := macros[name]; m != nil {
+			spans = append(spans, r.Spans[m.ID])
+		}
+	}
+	return spans
+}
+
 func offenderSpans(flat *vlib.Doc, r vlib.Rendered, fault vlib.Fault) []vlib.Span {
 	if strings.HasPrefix(fault.Kind, "omit-param-") {
 		switch strings.TrimPrefix(fault.Kind, "omit-param-") {
@@ -343,7 +384,7 @@ func offenderSpans(flat *vlib.Doc, r vlib.Rendered, fault vlib.Fault) []vlib.Spa
 			spans = append(spans, r.Spans[d.ID])
 		}
 	})
-	return spans
+	return append(spans, pastedBodySpans(flat, r, fault.Offenders)...)
 }
 
 // traceCase: a hand-written project whose diagnostic must carry exactly this
